@@ -1,6 +1,7 @@
 \* ONE correct validator (2) against a fully adversarial environment (every other validator's
 \* messages are free inputs): the local C12 obligations (single vote per kind/round, lock rule,
 \* justified votes/commits) for every input sequence with at most MaxRecv deliveries.
+\* Measured (MaxRound = 1, MaxRecv = 4): 2,995,284 distinct / 19,013,808 generated states, depth 11.
 CONSTANTS
   NV = 4
   Power <- MCUnitPower
